@@ -119,6 +119,68 @@ PROBES = [
 ]
 
 
+# Packages and classes that keep settings of their own (colour tables, citation punctuation, float kinds, language terms, input
+# encoding, ...): (name, a document that changes the setting, a document that relies on the default).  Each pair is run in both
+# orders, parsed only and rendered; the second document must come out as in a fresh interpreter.
+_D = '\\documentclass{article}'
+PKG_PAIRS = [
+ ('color', _D + '\\usepackage{color}\\definecolor{gray}{gray}{0.5}\\definecolor{zqmine}{rgb}{1,0,0}\\begin{document}\\textcolor{gray}{Wq1x} \\textcolor{zqmine}{Wq2x}\\end{document}',
+           _D + '\\usepackage{color}\\begin{document}\\textcolor{gray}{Wq1x} \\colorbox{red}{Wq2x} {\\color{blue}Wq3x}\\end{document}'),
+ ('xcolor', _D + '\\usepackage{xcolor}\\definecolor{blue}{rgb}{0,0,0}\\colorlet{red}{green}\\begin{document}\\textcolor{blue}{Wq1x} \\textcolor{red}{Wq2x}\\end{document}',
+           _D + '\\usepackage{xcolor}\\begin{document}\\textcolor{blue}{Wq1x} \\textcolor{red!50}{Wq2x} \\colorbox{yellow}{Wq3x}\\end{document}'),
+ ('hyperref', _D + '\\usepackage{hyperref}\\hypersetup{colorlinks=true,pdftitle={Zz}}\\begin{document}\\href{http://a.example/x}{Wq1x}\\end{document}',
+           _D + '\\usepackage{hyperref}\\begin{document}\\href{http://b.example/y}{Wq1x} \\url{http://c.example/a_b}\\section{Wq2x}\\label{s}\\autoref{s}\\end{document}'),
+ ('graphicx', _D + '\\usepackage{graphicx}\\graphicspath{{zqfigs/}}\\DeclareGraphicsExtensions{.zq}\\begin{document}Wq1x\\end{document}',
+           _D + '\\usepackage{graphicx}\\begin{document}Wq1x \\includegraphics[width=3cm]{zqnofile}\\end{document}'),
+ ('natbib', _D + '\\usepackage[numbers]{natbib}\\bibpunct{[}{]}{;}{n}{,}{,}\\begin{document}Wq1x\\citep{zk}\\begin{thebibliography}{9}\\bibitem{zk}Wq2x\\end{thebibliography}\\end{document}',
+           _D + '\\usepackage[numbers]{natbib}\\begin{document}Wq1x\\citep{zk} \\citet{zk}\\begin{thebibliography}{9}\\bibitem{zk}Wq2x\\end{thebibliography}\\end{document}'),
+ ('babel', _D + '\\usepackage[french]{babel}\\begin{document}\\tableofcontents\\section{Wq1x}\\begin{figure}Wq2x\\caption{Wq3x}\\end{figure}\\end{document}',
+           _D + '\\usepackage[german]{babel}\\begin{document}\\tableofcontents\\section{Wq1x}\\begin{figure}Wq2x\\caption{Wq3x}\\end{figure}\\end{document}'),
+ ('babel-none', _D + '\\usepackage[french]{babel}\\begin{document}\\tableofcontents\\section{Wq1x}\\begin{table}Wq2x\\caption{Wq3x}\\end{table}\\end{document}',
+           _D + '\\begin{document}\\tableofcontents\\section{Wq1x}\\begin{table}Wq2x\\caption{Wq3x}\\end{table}\\begin{thebibliography}{9}\\bibitem{zk}Wq4x\\end{thebibliography}\\end{document}'),
+ ('float', _D + '\\usepackage{float}\\newfloat{zqprog}{tbp}{lop}\\floatname{zqprog}{Program}\\begin{document}\\begin{zqprog}Wq1x\\caption{Wq2x}\\end{zqprog}\\end{document}',
+           _D + '\\usepackage{float}\\begin{document}\\begin{figure}[H]Wq1x\\caption{Wq2x}\\end{figure}\\end{document}'),
+ ('listings', _D + '\\usepackage{listings}\\lstset{language=Python,numbers=left}\\begin{document}\\begin{lstlisting}\nfor x in y: pass\n\\end{lstlisting}\\end{document}',
+           _D + '\\usepackage{listings}\\begin{document}\\begin{lstlisting}\nfor x in y: pass\n\\end{lstlisting}\\lstinline|a b|\\end{document}'),
+ ('fancyvrb', _D + '\\usepackage{fancyvrb}\\DefineVerbatimEnvironment{zqv}{Verbatim}{numbers=left}\\fvset{frame=single}\\begin{document}\\begin{zqv}\nWq1x\n\\end{zqv}\\end{document}',
+           _D + '\\usepackage{fancyvrb}\\begin{document}\\begin{Verbatim}\nWq1x \\x\n\\end{Verbatim}\\end{document}'),
+ ('amsthm', _D + '\\usepackage{amsthm}\\theoremstyle{remark}\\newtheorem{zqr}{Remark}\\begin{document}\\begin{zqr}Wq1x\\end{zqr}\\end{document}',
+           _D + '\\usepackage{amsthm}\\newtheorem{zqt}{Theorem}\\begin{document}\\begin{zqt}Wq1x\\end{zqt}\\begin{proof}Wq2x\\end{proof}\\end{document}'),
+ ('enumerate', _D + '\\usepackage{enumerate}\\begin{document}\\begin{enumerate}[(a)]\\item Wq1x\\item Wq2x\\end{enumerate}\\end{document}',
+           _D + '\\usepackage{enumerate}\\begin{document}\\begin{enumerate}\\item Wq1x\\label{i}\\end{enumerate}\\begin{enumerate}[I.]\\item Wq2x\\end{enumerate}\\ref{i}\\end{document}'),
+ ('caption', _D + '\\usepackage{caption}\\captionsetup{labelsep=period}\\begin{document}\\begin{figure}Wq1x\\caption{Wq2x}\\end{figure}\\end{document}',
+           _D + '\\usepackage{caption}\\begin{document}\\begin{figure}Wq1x\\caption{Wq2x}\\end{figure}\\begin{table}\\caption*{Wq3x}\\end{table}\\end{document}'),
+ ('cleveref', _D + '\\usepackage{cleveref}\\crefname{equation}{Eq.}{Eqs.}\\begin{document}\\begin{equation}x\\label{e1}\\end{equation}\\cref{e1}\\end{document}',
+           _D + '\\usepackage{cleveref}\\begin{document}\\begin{equation}x\\label{e1}\\end{equation}\\section{Wq1x}\\label{s1}\\cref{e1} \\Cref{s1}\\end{document}'),
+ ('url', _D + '\\usepackage{url}\\urlstyle{sf}\\begin{document}Wq1x \\url{http://a.example/%7Ex}\\end{document}',
+           _D + '\\usepackage{url}\\begin{document}Wq1x \\url{http://b.example/a_b#c} \\path{/x/y}\\end{document}'),
+ ('inputenc', _D + '\\usepackage[latin1]{inputenc}\\begin{document}Wq1x\\end{document}',
+           _D + '\\begin{document}Wq1x \u00e9\u00df\u03bb Wq2x\\end{document}'),
+ ('beamer', '\\documentclass{beamer}\\begin{document}\\begin{frame}\\frametitle{Wq1x}Wq2x\\end{frame}\\end{document}',
+           _D + '\\begin{document}\\section{Wq1x}Wq2x \\begin{itemize}\\item Wq3x\\end{itemize}\\begin{equation}y\\label{e}\\end{equation}\\ref{e}\\end{document}'),
+ ('memoir', '\\documentclass{memoir}\\begin{document}\\chapter{Wq1x}\\section{Wq2x}Wq3x\\end{document}',
+           '\\documentclass{book}\\begin{document}\\chapter{Wq1x}\\section{Wq2x}\\begin{equation}y\\label{e}\\end{equation}\\ref{e}\\end{document}'),
+ ('amsart', '\\documentclass{amsart}\\begin{document}\\section{Wq1x}\\begin{equation}y\\end{equation}\\end{document}',
+           '\\documentclass{book}\\begin{document}\\chapter{Wq1x}\\section{Wq2x}\\begin{equation}y\\label{e}\\end{equation}\\begin{figure}\\caption{Wq3x}\\label{f}\\end{figure}\\ref{e} \\ref{f}\\end{document}'),
+ ('subfig', _D + '\\usepackage{subfig}\\begin{document}\\begin{figure}\\subfloat[Wq1x]{Wq2x}\\caption{Wq3x}\\end{figure}\\end{document}',
+           _D + '\\begin{document}\\begin{figure}Wq1x\\caption{Wq2x}\\label{f}\\end{figure}\\ref{f}\\end{document}'),
+ ('tabularx', _D + '\\usepackage{tabularx}\\begin{document}\\begin{tabularx}{5cm}{lX}Wq1x&Wq2x\\end{tabularx}\\end{document}',
+           _D + '\\usepackage{array}\\begin{document}\\begin{tabular}{l>{\\bfseries}cX}Wq1x&Wq2x&Wq3x\\end{tabular}\\end{document}'),
+ ('shortvrb', _D + '\\usepackage{shortvrb}\\MakeShortVerb{\\|}\\begin{document}|Wq1x_y| Wq2x\\end{document}',
+           _D + '\\begin{document}Wq1x | Wq2x \\begin{tabular}{l|l}a&b\\end{tabular}\\end{document}'),
+ ('setspace-geometry', _D + '\\usepackage{setspace}\\usepackage[margin=1cm]{geometry}\\doublespacing\\begin{document}Wq1x\\end{document}',
+           _D + '\\begin{document}Wq1x \\the\\baselineskip\\end{document}'),
+ ('verse', _D + '\\usepackage{verse}\\begin{document}\\begin{verse}[3cm]Wq1x \\\\ Wq2x\\end{verse}\\end{document}',
+           _D + '\\begin{document}\\begin{verse}[Wq1x] Wq2x \\\\ Wq3x\\end{verse}\\begin{quote}Wq4x\\end{quote}\\end{document}'),
+ ('hyperref-ref', _D + '\\usepackage{hyperref}\\begin{document}\\section{Wq1x}\\label{s}\\ref*{s} \\pageref*{s} \\ref{s}\\end{document}',
+           _D + '\\begin{document}\\section{Wq1x}\\label{s}\\ref{s}* \\pageref{s} Wq2x\\end{document}'),
+ ('beamer-item', '\\documentclass{beamer}\\begin{document}\\begin{frame}\\begin{itemize}\\item<1-> Wq1x\\end{itemize}\\textbf<2>{Wq2x}\\end{frame}\\end{document}',
+           _D + '\\begin{document}\\begin{itemize}\\item <Wq1x> Wq2x\\item[Wq3x] <Wq4x>\\end{itemize}\\textbf{Wq5x} <Wq6x> \\footnote[2]{Wq7x}\\begin{enumerate}\\item [Wq8x]\\end{enumerate}\\end{document}'),
+ ('textcomp', _D + '\\usepackage{textcomp}\\usepackage{wasysym}\\begin{document}\\texteuro Wq1x\\end{document}',
+           _D + '\\begin{document}Wq1x \\textbullet \\S \\copyright\\end{document}'),
+]
+
+
 def borrowed(r):
     """a document from the generator of another check (macro programs, conditionals, scopes, argument forms,
     counters, lists/tables, index, ifthen): everything that scans arguments or switches interpreter-wide state"""
@@ -170,6 +232,11 @@ def cases(seed, tier, shard, nshards):
     for i in common.sharded(len(HOSTILE) * len(PROBES), shard, nshards):
         h, q = divmod(i, len(PROBES))
         yield {'A': [list(HOSTILE[h])], 'B': ['probe', PROBES[q]], 'render': i % 7 == 0, 'renderer': 'HTML5' if i % 2 else 'XHTML'}
+    for i in common.sharded(len(PKG_PAIRS) * 4, shard, nshards):
+        name, a, b = PKG_PAIRS[i // 4]
+        if i % 2:
+            a, b = b, a
+        yield {'A': [['package-setting:' + name, a]], 'B': ['probe', b], 'render': i % 4 >= 2, 'renderer': 'HTML5' if (i // 4) % 2 else 'XHTML', 'pair': name}
     for i in common.sharded(budget(tier)['n'], shard, nshards):
         r = common.rng_for(seed, PROP, i)
         As = [gen_doc(r) for _ in range(r.randint(1, 4))]
